@@ -38,7 +38,7 @@ def determinism(ctx):
     nvar = ctx.n(5, 24)
     orders_seen = 0
     for k in range(nseeds):
-        kind = ('shared-enable', 'random', 'names', 'same-name-mems', 'names+copy', 'blif', 'random+copy', 'same-name-mems+copy')[k % 8]
+        kind = ('shared-enable', 'bench', 'random', 'names', 'same-name-mems', 'names+copy', 'blif', 'random+copy', 'same-name-mems+copy', 'bench')[k % 10]
         seed = ctx.rng.randrange(1 << 30)
         base = run_child(seed, 0, 0, kind)
         if base.get('skip'):
@@ -97,7 +97,7 @@ def read_only(ctx):
     n = ctx.n(25, 400)
     for k in ctx.loop(n):
         rng = ctx.rng
-        d = gen.rand_design(rng, profile='small', nops=rng.randint(3, 10), raw=False,
+        d = gen.rand_design(rng, profile='small', nops=rng.randint(3, 10), raw=False, nroms=rng.choice([0, 1, 2, 2]),
                             ops=[o for o in gen.OPS_ALL if o != 'nand'])
         blk = d.block
         steps = gen.rand_stimulus(rng, d, 4)
@@ -161,6 +161,12 @@ def read_only(ctx):
                     roms = [m for m in roms if callable(m.data) or isinstance(m.data, (list, tuple))]
                     ctx.count('firrtl-rom_blocks', len(roms))
                     pyrtl.output_to_firrtl(io.StringIO(), rom_blocks=roms, block=b2)
+            try:
+                b2.sanity_check()
+            except Exception as e:  # noqa
+                ctx.violation('firrtl-leaves-malformed-block', 'after output_to_firrtl the block fails sanity_check: %s: %s' % (
+                    type(e).__name__, str(e)[:160]), dict(replay, call='output_to_firrtl'))
+                continue
             got, gresp, _ = passlib.spec_trace(ctx, b2, steps, {}, memmap_by_id, watch=outs)
             ctx.evaluations += 1
             if got is None:
